@@ -62,6 +62,9 @@ pub struct Prepared {
     pub unusable: Option<String>,
     /// the emitted check's own verdict on the twin of the request (the classifier of N5)
     pub twin_check: Result<(), String>,
+    /// the emitted checks of the envelope's own parts (header struct, body struct) applied directly: structural
+    /// delegation probe – if a part's check fails the envelope's check must fail as well
+    pub parts_check: Result<(), String>,
     pub expected_body: String,
     pub exact_response: String,
     /// direct deserialization of a body text with the emitted response type: Ok(Debug text) / Err
@@ -71,7 +74,7 @@ pub struct Prepared {
 
 impl Prepared {
     pub fn unusable(why: String) -> Self {
-        Prepared { unusable: Some(why), twin_check: Ok(()), expected_body: String::new(), exact_response: String::new(), parse_out: Box::new(|_| Err(String::new())), fut: None }
+        Prepared { unusable: Some(why), twin_check: Ok(()), parts_check: Ok(()), expected_body: String::new(), exact_response: String::new(), parse_out: Box::new(|_| Err(String::new())), fut: None }
     }
 }
 
@@ -90,9 +93,10 @@ pub struct ClientInfo {
 
 #[macro_export]
 macro_rules! client_ctx {
-    ($ctx:ident, $m:ident, $svc:ident, [$(($i:expr, $op:ident, $In:ident, $Out:ident)),* $(,)?]) => {
+    ($ctx:ident, $m:ident, $svc:ident, [$(($i:expr, $call:expr, $In:ident, $Out:ident, $parts:expr)),* $(,)?]) => {
         pub struct $ctx {
             pub svc: std::rc::Rc<$m::$svc>,
+            pub creds: Option<(String, String)>,
         }
         impl $crate::ClientCtx for $ctx {
             fn location(&self) -> String {
@@ -120,6 +124,8 @@ macro_rules! client_ctx {
                             (Err(e), _) | (_, Err(e)) => return $crate::Prepared::unusable(format!("request instance does not deserialize: {e}")),
                         };
                         let twin_check = twin.check_restrictions(None).map_err(|e| e.to_string());
+                        let parts: fn(&$m::$In) -> Result<(), String> = $parts;
+                        let parts_check = parts(&twin);
                         let expected_body = match yaserde::ser::to_string(&twin) {
                             Ok(s) => s,
                             Err(e) => return $crate::Prepared::unusable(format!("request does not serialize: {e}")),
@@ -141,8 +147,10 @@ macro_rules! client_ctx {
                             Err(e) => return $crate::Prepared::unusable(format!("response does not serialize: {e}")),
                         };
                         let svc = self.svc.clone();
+                        let creds = self.creds.clone();
+                        let call: fn(std::rc::Rc<$m::$svc>, Option<(String, String)>, $m::$In) -> std::pin::Pin<Box<dyn std::future::Future<Output = $m::error::SoapResult<$m::$Out>>>> = $call;
                         let fut: $crate::Fut = Box::pin(async move {
-                            match svc.$op(req).await {
+                            match call(svc, creds, req).await {
                                 Ok(v) => $crate::CallResult::Value(format!("{v:?}")),
                                 Err(e) => {
                                     let variant = match &e {
@@ -157,6 +165,7 @@ macro_rules! client_ctx {
                         $crate::Prepared {
                             unusable: None,
                             twin_check,
+                            parts_check,
                             expected_body,
                             exact_response,
                             parse_out: Box::new(|s: &str| yaserde::de::from_str::<$m::$Out>(s).map(|v| format!("{v:?}"))),
@@ -178,7 +187,19 @@ const BODY_KINDS: [&str; 8] = ["exact", "reprefixed", "empty", "non-xml", "trunc
 const TRANSPORTS: [&str; 5] = ["ok", "refused", "closed-before-head", "closed-mid-body", "ok-in-chunks"];
 const CREDS: [&str; 6] = ["absent", "user/secret", "empty strings", "colon in both", "non-ascii", "300-char password"];
 
+/// Credentials 0..5 are fixed; 6.. are generated from the value itself out of an alphabet of awkward characters
+/// (separators, spaces at the ends, non-ASCII, quotes), so that "arbitrary text" is really explored.
+const N_CREDS: u64 = 6 + 64;
 fn creds_of(k: u64) -> Option<(String, String)> {
+    if k >= 6 {
+        const ALPHA: [&str; 12] = ["a", "Z", "7", ":", " ", "\u{e9}", "%", "@", "\"", "\\", "\t", "\u{4e16}"];
+        let mut st = k.wrapping_mul(0x9e37_79b9_7f4a_7c15);
+        let mut gen = |max: u64| {
+            let n = simkernel::splitmix64(&mut st) % (max + 1);
+            (0..n).map(|_| ALPHA[(simkernel::splitmix64(&mut st) % 12) as usize]).collect::<String>()
+        };
+        return Some((gen(5), gen(7)));
+    }
     match k {
         0 => None,
         1 => Some(("user".into(), "secret".into())),
@@ -228,7 +249,7 @@ fn decode_call(ch: &mut Chooser, n_ops: usize) -> CallSpec {
 
 fn decode_scenario(ch: &mut Chooser, infos: &[ClientInfo]) -> Scenario {
     let client = ch.choose("client", infos.len() as u64) as usize;
-    let creds = ch.choose("credentials", 6);
+    let creds = ch.choose("credentials", N_CREDS);
     let n = 1 + ch.choose("concurrent_calls", 3) as usize;
     let calls = (0..n).map(|_| decode_call(ch, infos[client].ops.len())).collect();
     Scenario { client, creds, calls }
@@ -308,6 +329,14 @@ fn reprefix(xml: &str) -> String {
 
 const FAULT: &str = "<?xml version=\"1.0\" encoding=\"utf-8\"?><soapenv:Envelope xmlns:soapenv=\"http://schemas.xmlsoap.org/soap/envelope/\"><soapenv:Body><soapenv:Fault><faultcode>soapenv:Server</faultcode><faultstring>internal error</faultstring></soapenv:Fault></soapenv:Body></soapenv:Envelope>";
 const HTML: &str = "<html><head><title>502 Bad Gateway</title></head><body><h1>Bad Gateway</h1></body></html>";
+
+fn creds_name(k: u64) -> String {
+    if k < 6 {
+        CREDS[k as usize].to_string()
+    } else {
+        format!("generated#{k}: {:?}", creds_of(k).unwrap())
+    }
+}
 
 fn floor_char(s: &str, mut i: usize) -> usize {
     while i > 0 && !s.is_char_boundary(i) {
@@ -420,9 +449,13 @@ fn run_scenario(infos: &[ClientInfo], insts: &[Instances], sc: &Scenario, ch: &m
     facts.steps = outcome.steps;
     facts.trace = hist.iter().map(|r| format!("#{} t={}us call{} {:?}", r.seq, r.time_us, r.task, r.kind)).collect();
     if let Some(b) = broken {
+        // the run was stopped at the step that broke the invariant: nothing after it is judged
         if property == "C16" {
-            facts.findings.push(Finding { class: "more-than-one-post".into(), key: format!("more-than-one-post:{}", info.name), detail: b });
+            let t = b.split_whitespace().nth(1).and_then(|x| x.parse::<usize>().ok()).unwrap_or(0);
+            let tr = sc.calls.get(t).map_or("?", |c| TRANSPORTS[c.transport]);
+            facts.findings.push(Finding { class: "more-than-one-post".into(), key: format!("more-than-one-post:after-{tr}"), detail: format!("{}: {b} (transport script of that call: {tr})", info.name) });
         }
+        return facts;
     }
     let want_url = norm_url(info.wsdl_location);
     for (i, c) in sc.calls.iter().enumerate() {
@@ -432,9 +465,17 @@ fn run_scenario(infos: &[ClientInfo], insts: &[Instances], sc: &Scenario, ch: &m
         let connects = hist.iter().filter(|r| r.task == i && r.kind == EvKind::ConnectAttempt).count();
         let result = outcome.results[i].clone();
         let status = STATUSES[c.status];
-        let restricted = p.twin_check.is_err();
         let id = format!("{}::{}", info.name, opname);
-        facts.calls_json.push(json!({"op": id, "request_variant": c.variant, "mutated_positions": positions, "twin_check": p.twin_check.clone().err(), "status": status, "body": BODY_KINDS[c.body_kind], "transport": TRANSPORTS[c.transport], "credentials": CREDS[sc.creds as usize], "connections": connects, "response_body": body.chars().take(700).collect::<String>(), "result": match &result { Some(CallResult::Value(_)) => "Ok(value)".to_string(), Some(CallResult::Error { variant, text }) => format!("Err({variant}: {})", text.chars().take(80).collect::<String>()), None => "not completed".to_string() }}));
+        let restricted = p.twin_check.is_err() || p.parts_check.is_err();
+        let is_free = opname.starts_with("fn:");
+        if is_free {
+            facts.probes.push("free_standing_function_calls".into());
+        }
+        if p.twin_check.is_ok() && p.parts_check.is_err() && property == "C07" {
+            facts.findings.push(Finding { class: "envelope-check-ignores-part".into(), key: "envelope-check-ignores-part".into(), detail: format!("{id}: check_restrictions on the envelope passes although the check of its own header/body part fails ({})", p.parts_check.clone().unwrap_err()) });
+        }
+        let why_restricted = p.twin_check.clone().err().or(p.parts_check.clone().err()).unwrap_or_default();
+        facts.calls_json.push(json!({"op": id, "request_variant": c.variant, "mutated_positions": positions, "twin_check": p.twin_check.clone().err(), "status": status, "body": BODY_KINDS[c.body_kind], "transport": TRANSPORTS[c.transport], "credentials": creds_name(sc.creds), "connections": connects, "response_body": body.chars().take(700).collect::<String>(), "result": match &result { Some(CallResult::Value(_)) => "Ok(value)".to_string(), Some(CallResult::Error { variant, text }) => format!("Err({variant}: {})", text.chars().take(80).collect::<String>()), None => "not completed".to_string() }}));
 
         // N4: bounded progress / completion
         if result.is_none() {
@@ -456,9 +497,9 @@ fn run_scenario(infos: &[ClientInfo], insts: &[Instances], sc: &Scenario, ch: &m
             let is_restr = matches!(&result, CallResult::Error { variant: "Restriction", .. });
             if property == "C07" {
                 if wire > 0 {
-                    facts.findings.push(Finding { class: "io-before-restriction-check".into(), key: format!("io-before-restriction-check:{}", if is_restr { "error-returned-after-io" } else { "request-sent" }), detail: format!("{id}: the request violates its restrictions ({}) but {wire} transport event(s) were recorded for the call; result {:?}", p.twin_check.clone().unwrap_err(), result) });
+                    facts.findings.push(Finding { class: "io-before-restriction-check".into(), key: format!("io-before-restriction-check:{}", if is_restr { "error-returned-after-io" } else { "request-sent" }), detail: format!("{id}: the request violates its restrictions ({}) but {wire} transport event(s) were recorded for the call; result {:?}", why_restricted, result) });
                 } else if !is_restr {
-                    facts.findings.push(Finding { class: "restriction-not-reported".into(), key: "restriction-not-reported".into(), detail: format!("{id}: the request violates its restrictions ({}) but the call returned {:?}", p.twin_check.clone().unwrap_err(), result) });
+                    facts.findings.push(Finding { class: "restriction-not-reported".into(), key: "restriction-not-reported".into(), detail: format!("{id}: the request violates its restrictions ({}) but the call returned {:?}", why_restricted, result) });
                 }
             }
             continue;
@@ -476,7 +517,9 @@ fn run_scenario(infos: &[ClientInfo], insts: &[Instances], sc: &Scenario, ch: &m
         if r.method != "POST" {
             facts.findings.push(Finding { class: "wrong-method".into(), key: "wrong-method".into(), detail: format!("{id}: method {}", r.method) });
         }
-        if norm_url(&r.url) != want_url {
+        if is_free {
+            facts.probes.push(if norm_url(&r.url) == want_url { "free_function_posts_to_port_address".into() } else { "free_function_posts_to_soap_action(not gated: C05 territory)".into() });
+        } else if norm_url(&r.url) != want_url {
             facts.findings.push(Finding { class: "wrong-url".into(), key: format!("wrong-url:{}", info.name), detail: format!("{id}: posted to {} but the WSDL port address is {}", r.url, info.wsdl_location) });
         }
         if r.body != p.expected_body {
@@ -681,7 +724,7 @@ fn build_tapes(infos: &[ClientInfo], property: &str, tier: &str, seed: u64) -> (
                     tapes.push(encode_single(ci, 0, &c));
                     n_enum += 1;
                 }
-                for creds in 2..6u64 {
+                for creds in (2..6u64).chain(if op == 0 { 6..N_CREDS } else { 6..14 }) {
                     let mut c = base.clone();
                     c.op = op;
                     c.variant = 1;
@@ -829,7 +872,7 @@ fn main() {
             class: fin.class.clone(),
             key: key.clone(),
             detail: format!("{} [{} violating runs share this key]", fin.detail, stats.found.iter().filter(|x| &x.1.key == key).count()),
-            scenario: json!({"client": infos[sc.client].name, "wsdl_port_address": infos[sc.client].wsdl_location, "credentials": CREDS[sc.creds as usize], "calls": facts.calls_json}),
+            scenario: json!({"client": infos[sc.client].name, "wsdl_port_address": infos[sc.client].wsdl_location, "credentials": creds_name(sc.creds), "calls": facts.calls_json}),
             tape: ch.tape_json(),
             observations: json!({"history": facts.trace, "virtual_time_us": facts.virtual_us, "executor_steps": facts.steps}),
             trace: json!({"shrink_reexecutions": used}),
